@@ -138,7 +138,9 @@ def write_crate(ws, name, c):
     os.makedirs(os.path.join(d, 'src'), exist_ok=True)
     r = repo()
     feats = ', '.join(f'"{f}"' for f in c['features'])
-    if c['std']:
+    if c.get('bare'):
+        deps = f'nutype = {{ path = "{r}/nutype" }}\n'
+    elif c['std']:
         deps = f'''nutype = {{ path = "{r}/nutype", features = [{feats}] }}
 serde = "1"
 arbitrary = "1"
@@ -233,7 +235,8 @@ def mir_facts(tier):
                 'RUSTC_WORKSPACE_WRAPPER': NUMIR,
                 'NUMIR_OUT': out,
             })
-            groups = {'wsfull': {n: c for n, c in crates.items() if c['std']},
+            groups = {'wsfull': {n: c for n, c in crates.items() if c['std'] and not c.get('bare')},
+                      'wsbare': {n: c for n, c in crates.items() if c.get('bare')},
                       'wsnostd': {n: c for n, c in crates.items() if not c['std']}}
             dropped = []
             fatal = {}
